@@ -230,8 +230,14 @@ func (w *world) objects() []objT {
 	for _, x := range w.k.GetOracleSets(w.ctx()) {
 		res = append(res, objT{"os", x.Nonce, x.Height})
 	}
-	w.k.IterateOutgoingTxBatches(w.ctx(), func(b *types.OutgoingTxBatch) bool { res = append(res, objT{"batch", b.BatchNonce, b.Block}); return false })
-	w.k.IterateOutgoingBridgeCalls(w.ctx(), func(c *types.OutgoingBridgeCall) bool { res = append(res, objT{"call", c.Nonce, c.BlockHeight}); return false })
+	w.k.IterateOutgoingTxBatches(w.ctx(), func(b *types.OutgoingTxBatch) bool {
+		res = append(res, objT{"batch", b.BatchNonce, b.Block})
+		return false
+	})
+	w.k.IterateOutgoingBridgeCalls(w.ctx(), func(c *types.OutgoingBridgeCall) bool {
+		res = append(res, objT{"call", c.Nonce, c.BlockHeight})
+		return false
+	})
 	sort.SliceStable(res, func(i, j int) bool {
 		if res[i].kind != res[j].kind {
 			return res[i].kind < res[j].kind
@@ -1211,6 +1217,9 @@ func runAll(t *testing.T, mode string) {
 		} else {
 			w.sequence(length)
 		}
+	}
+	if mode == "c07" {
+		runGov(t, out, rng) // gov half: real gov end-blocker (tally, deposits, expedited conversion) after every step
 	}
 	t.Logf("sequences=%d evaluations=%d violations=%d", out.Stats.Sequences, out.Stats.Evaluations, len(out.Stats.Violations))
 }
